@@ -1,5 +1,6 @@
 """Per-property configuration: theorem obligations, case families, oracle (DESIGN.md §6)."""
 import re
+import refdec
 
 
 def outcome(s):
@@ -34,6 +35,105 @@ def oracle_c02(c, a, b):
             return "accepted a packet that is not well-formed under the policy (model verdict: %s)" % b
         return "rejected a well-formed packet (%s)" % a
     return None
+
+
+def kv(out):
+    d = {}
+    for tok in out.split(" "):
+        if "=" in tok:
+            k, v = tok.split("=", 1)
+            d[k] = v
+    return d
+
+
+def oracle_c12(c, a, b):
+    """frame condition of the header setters, by RFC 1035 field positions (div/mod), on I's 12 bytes"""
+    if outcome(a) != "ok":
+        return "header setter did not return normally: %s" % a[:60]
+    w = c.split(" ")
+    if w[0] != "hdr":
+        return None
+    before = bytes.fromhex(w[1])[:12]
+    ext = None if w[2] == "-" else int(w[2])
+    setter, arg = w[3], int(w[4])
+    toks = a.split(" ")
+    after = bytes.fromhex(toks[1])
+    g = kv(a)
+    W0 = before[2] * 256 + before[3]
+    W1 = after[2] * 256 + after[3]
+    exp = bytearray(before)
+    FLAGMASK = 0x8000 | 0x0400 | 0x0200 | 0x0100 | 0x0080 | 0x0040 | 0x0020 | 0x0010
+    if setter == "settid":
+        exp[0], exp[1] = (arg % 65536) // 256, arg % 256
+    elif setter == "setflags":
+        nw = (W0 & ~FLAGMASK & 0xffff) | (arg % 65536 & FLAGMASK)
+        exp[2], exp[3] = nw // 256, nw % 256
+    elif setter == "setopcode":
+        nw = (W0 - ((W0 // 2048) % 16) * 2048) + (arg % 16) * 2048
+        exp[2], exp[3] = nw // 256, nw % 256
+    elif setter == "setrcode":
+        nw = W0 - W0 % 16 + arg % 16
+        exp[2], exp[3] = nw // 256, nw % 256
+    elif setter == "setresponse":
+        nw = W0 % 32768 + (32768 if arg else 0)
+        exp[2], exp[3] = nw // 256, nw % 256
+    if bytes(exp) != after:
+        return "%s(%d) on flag word 0x%04x gave header %s, expected %s" % (setter, arg, W0, after.hex(), bytes(exp).hex())
+    qr = W1 // 32768
+    fl = ((ext or 0) << 16) | (W1 & FLAGMASK)
+    sec = ((fl >> 31) & 1) if qr == 0 else ((W1 // 32) % 2)
+    want = {"tid": after[0] * 256 + after[1], "op": (W1 // 2048) % 16, "rc": W1 % 16, "qr": qr, "fl": fl, "sec": sec}
+    for k, v in want.items():
+        if g.get(k) != str(v):
+            return "getter %s returned %s, bytes say %d" % (k, g.get(k), v)
+    return None
+
+
+def first_diff(x, y):
+    tx, ty = re.split(r"[ ;]", x), re.split(r"[ ;]", y)
+    for u, v in zip(tx, ty):
+        if u != v:
+            return "got %s, bytes say %s" % (u[:120], v[:120])
+    return "got %d items, bytes say %d" % (len(tx), len(ty))
+
+
+def oracle_c03(c, a, b):
+    """every walk visits exactly the records present, each accessor returns the RFC 1035 value"""
+    w = c.split(" ")
+    if w[0] != "iter":
+        return None
+    if a.startswith("noparse"):
+        return None  # not an accepted packet: outside the property's quantifier
+    if "panic" in a or outcome(a) in ("hang", "abort"):
+        return "an iterator or accessor panicked on an accepted packet"
+    try:
+        want = refdec.expected_iter_dump(bytes.fromhex(w[1]))
+    except refdec.Undecodable as e:
+        return "accepted packet is not decodable per RFC 1035: %s" % e
+    if a != want:
+        return "walk/accessor mismatch: " + first_diff(a, want)
+    return None
+
+
+def oracle_c04(c, a, b):
+    w = c.split(" ")
+    if w[0] != "summary":
+        return None
+    if a.startswith("noparse"):
+        return None
+    if "panic" in a or outcome(a) in ("hang", "abort"):
+        return "a summary getter panicked on an accepted packet"
+    try:
+        want = refdec.expected_summary(bytes.fromhex(w[1]))
+    except refdec.Undecodable as e:
+        return "accepted packet is not decodable per RFC 1035: %s" % e
+    if a != want:
+        return "summary mismatch: " + first_diff(a, want)
+    return None
+
+
+def nontrivial_accepted(c, a):
+    return not a.startswith("noparse")
 
 
 def match_known(known, prop, c, a, b, reason):
@@ -75,6 +175,45 @@ PROPS = {
                        "correspondence: real parse()/checkers/cursor primitives agree with the model on every generated case, panics caught per case, hangs by watchdog",
         "assumptions": ["termination of the real loops is inferred from the model's termination proof plus agreement of outcomes and of the step counter (C18), not proved of the Rust code",
                         "absence of recursion in the validator (iterative loops), safe-Rust bounds checks"],
+    },
+    "C03": {
+        "module": "DnsModel.Theorems.C03",
+        "theorems": [],
+        "families": [{"name": "iter", "quick": 3000, "thorough": 150000}],
+        "oracle": oracle_c03,
+        "nontrivial": nontrivial_accepted,
+        "rule": "accepted packets from the structured stream (all record shapes, 4 layouts incl. chained pointers and pointers into rdata names, OPT absent/first/middle/last); "
+                "each case runs the six walks and every accessor on every record; non-trivial = distinct accepted packets",
+        "level": "other",
+        "explanation": "",
+        "assumptions": [],
+    },
+    "C04": {
+        "module": "DnsModel.Theorems.C04",
+        "theorems": [],
+        "families": [{"name": "summary", "quick": 3000, "thorough": 100000}],
+        "oracle": oracle_c04,
+        "nontrivial": nontrivial_accepted,
+        "rule": "accepted packets with random flag words, OPT present/absent with random version/flags/rcode/payload, question names through pointers incl. into the header; every getter, question getters twice (cold/warm cache)",
+        "level": "other",
+        "explanation": "",
+        "assumptions": [],
+    },
+    "C12": {
+        "module": "DnsModel.Theorems.C12",
+        "theorems": [],
+        "families": [
+            {"name": "hdr-quick", "quick": 0, "thorough": 0, "fixed": True, "only": "quick"},
+            {"name": "hdr-full", "quick": 0, "thorough": 0, "fixed": True, "only": "thorough"},
+        ],
+        "oracle": oracle_c12,
+        "nontrivial": lambda c, a: True,
+        "rule": "flag words x setter arguments: quick = 1024 words incl. all single-bit words and mask constants x (6 fixed + 11 single-bit + 1 random) set_flags arguments, "
+                "8 opcode / 8 rcode arguments, both response values, a random tid; thorough = all 65536 words x (6 fixed + all 32 single-bit + 8 random) arguments; every case is distinct",
+        "level": "proof",
+        "shrink": False,
+        "explanation": "",
+        "assumptions": [],
     },
     "C02": {
         "module": "DnsModel.Theorems.C02",
